@@ -934,3 +934,37 @@ V('c07-cimobject-keeps-host', 'C07', 'C07.R9',
   ('pywbem/_cim_obj.py', "        if self.host is not None and format != 'cimobject':\n            # The CIMObject format assumes there is no host component\n            ret.append('//')\n            ret.append(case(self.host))\n\n        if self.host is not None or format not in ('cimobject', 'historical'):\n            ret.append('/')\n\n        if self.namespace is not None:\n            ret.append(case(self.namespace))\n\n        if self.namespace is not None or format != 'historical':\n            ret.append(':')\n\n        ret.append(case(self.classname))\n\n        return",
    "        if self.host is not None and format != 'cimobject':\n            # The CIMObject format assumes there is no host component\n            ret.append('//')\n            ret.append(case(self.host))\n\n        if self.host is not None and format not in ('cimobject', 'historical'):\n            ret.append('/')\n\n        if self.namespace is not None:\n            ret.append(case(self.namespace))\n\n        if self.namespace is not None or format != 'historical':\n            ret.append(':')\n\n        ret.append(case(self.classname))\n\n        return"),
   'prefix-not-parsed')
+
+# ---- round g rules ----------------------------------------------------------
+MOCKCONN = 'pywbem_mock/_wbemconnection_mock.py'
+V('c03-lenient-encoding', 'C03', 'C03.R8',
+  ('pywbem/_utils.py', "        return obj.encode(\"utf-8\")", "        return obj.encode(\"utf-8\", \"replace\")"),
+  'lenient-encoding')
+V('c13-stamp-in-place', 'C13', 'C13.R9',
+  (MAINF, "            rtn_names = [r.copy() for r in ref_paths]", "            rtn_names = list(ref_paths)"),
+  'stamped-in-place')
+V('c13-adapter-wrong-key', 'C13', 'C13.R10',
+  (MOCKCONN, "            AssocClass=_cvt_opt_classname(params.get('AssocClass', None)),", "            AssocClass=_cvt_opt_classname(params.get('ResultClass', None)),", 1, 2),
+  'wrong-request-key')
+V('c15-adapter-wrong-key', 'C15', 'C15.R9',
+  (MOCKCONN, "            AssocClass=_cvt_opt_classname(params.get('AssocClass', None)),", "            AssocClass=_cvt_opt_classname(params.get('ResultClass', None)),", 1, 2),
+  'wrong-request-key')
+V('c04-adapter-wrong-key', 'C04', 'C04.R11',
+  (MOCKCONN, "            AssocClass=_cvt_opt_classname(params.get('AssocClass', None)),", "            AssocClass=_cvt_opt_classname(params.get('ResultClass', None)),", 1, 0),
+  'wrong-request-key')
+V('c17-log-error-reads-headers', 'C17', 'C17.R10',
+  ('pywbem/_listener.py', "        self.logger.error(format, *args)", "        self.logger.error(format + ' (%s)', *(args + (self.headers.get('Host'),)))"),
+  'late-attribute')
+V('c20-truncation-default-truthiness', 'C20', 'C20.R7',
+  ('pywbem/_valuemapping.py', "            if values_default is None:", "            if not values_default:", 1, 1),
+  'truthiness-of-sentinel')
+V('c08-translatable-only-for-arrays', 'C08', 'C08.R11',
+  ('pywbem/_cim_obj.py', "        if self.translatable:\n            mof_flavors.append('Translatable')", "        if self.translatable and not self.is_array:\n            mof_flavors.append('Translatable')"),
+  'keyword-by-several-attributes')
+V('c09-find-mof-unpack', 'C09', 'C09.R1',
+  ('pywbem/_mof_compiler.py', "                    if file_.endswith('.mof') and \\\n                            file_[:-4].lower() == classname:", "                    stem, ext = file_.rsplit('.', 1)\n                    if ext == 'mof' and stem.lower() == classname:"),
+  'ValueError')
+V('c16-queue-after-http-thread', 'C16', 'C16.R8',
+  [('pywbem/_listener.py', "        self._ind_queue = queue.Queue(\n            maxsize=self._max_ind_queue_size)\n", "        pass\n"),
+   ('pywbem/_listener.py', "    def stop(self):\n        \"\"\"\n        Stop the WBEM listener gracefully.", "        self._ind_queue = queue.Queue(\n            maxsize=self._max_ind_queue_size)\n\n    def stop(self):\n        \"\"\"\n        Stop the WBEM listener gracefully.")],
+  'accepting-before-delivery')
